@@ -108,6 +108,8 @@ def crash_key(how, errfile, desc):
         if t == "ubsan":
             what = _ubsan_kind(m.group(3))
             site = os.path.basename(m.group(1))
+            if "/verif/" in m.group(1) or m.group(1).startswith("harness/"):
+                tool = "harness-bug"
         elif t == "assert":
             what = "assertion"
             site = os.path.basename(m.group(1))
@@ -198,6 +200,9 @@ class Check:
                 self.violation(key, detail, replay_args=replay_args)
         for (case, how, errfile, desc) in res.crashes:
             key, text = crash_key(how, errfile, desc)
+            if key.startswith("crash:harness-bug:") or how in ("exit97", "exit98"):
+                self.inconclusive_because("harness failure in case %d: %s %s" % (case, key, text[:300]))
+                continue
             ra = dict(replay_args or {})
             ra["case"] = case
             self.violation(key, "case=%d %s (%s)\n%s" % (case, desc, how, text[:3000]), files=[errfile], replay_args=ra)
